@@ -856,15 +856,22 @@ where
     let file = log::open(utils::hintfile_name(&path, fileid))?;
     let mut hintfile_iter = LogIterator::new(file)?;
     // A hint file that was not fully written before a failure can point to data that never
-    // reached the data file. Only trust it if every entry lies within the data file, otherwise
-    // report it as missing so the data file gets scanned instead.
+    // reached the data file, or it can miss entries that did. Only trust it if its entries lie
+    // within the data file and describe it up to its end, otherwise report it as missing so the
+    // data file gets scanned instead.
     let datafile_len = fs::metadata(utils::datafile_name(&path, fileid))?.len();
     let mut entries = Vec::new();
+    let mut described_len = 0;
     while let Some((_, entry)) = hintfile_iter.next::<HintFileEntry>()? {
-        if entry.pos.saturating_add(entry.len) > datafile_len {
+        let entry_end = entry.pos.saturating_add(entry.len);
+        if entry_end > datafile_len {
             return Err(io::Error::from(io::ErrorKind::NotFound).into());
         }
+        described_len = described_len.max(entry_end);
         entries.push(entry);
+    }
+    if described_len != datafile_len {
+        return Err(io::Error::from(io::ErrorKind::NotFound).into());
     }
     for entry in entries {
         let keydir_entry = KeyDirEntry {
